@@ -30,6 +30,35 @@ def _member_path(e):
     return None
 
 
+_MEMO = {}
+
+
+def _accessor(facts, call):
+    """an in-repo member function that only checks its arguments (throwing) and returns an element / member of its object:
+    no assignment, no loop, no call other than size() / empty() / element access / exception constructors"""
+    cal = call.get("callee") or {}
+    found = False
+    for g in facts.fns(cal.get("qn")):
+        if g.get("sig") != cal.get("sig") or g.get("body") is None:
+            continue
+        found = True
+        for x in walk(g["body"]):
+            k = x.get("k")
+            if k in ("While", "For", "Do", "RangeFor", "Lambda", "New", "Delete"):
+                return False
+            if k == "Bin" and (x.get("op") or "").endswith("=") and x.get("op") not in ("==", "!=", "<=", ">="):
+                return False
+            if k == "Un" and x.get("op") in ("pre++", "post++", "pre--", "post--"):
+                return False
+            if k in ("MCall", "Call", "OpCall"):
+                nm = callee_name(x) or ("operator" + (x.get("op") or ""))
+                c2 = x.get("callee") or {}
+                if not (c2.get("const") or nm in ("size", "empty", "at", "operator[]", "front", "back", "begin", "end", "get", "value", "c_str", "to_string", "operator+") or
+                        (k == "OpCall" and x.get("op") in ("[]", "*", "->", "==", "!=", "<", ">", "<=", ">=", "+"))):
+                    return False
+    return found
+
+
 def _events(facts, cls, f, depth=0, seen=frozenset()):
     """writes and reads of members of *this in program order (calls of own member functions spliced in):
        ('w', member, value expr or None, node, fn)   ('r', member, node, fn)"""
@@ -108,8 +137,11 @@ def _events(facts, cls, f, depth=0, seen=frozenset()):
             # by-reference arguments
             for a, t in zip(args, cal.get("sig", []) or []):
                 if (t.endswith("&") and not t.startswith("const ") and not t.endswith("&&")) or (t.endswith("*") and not t.startswith("const ")):
+                    ua = unwrap_all_casts(a)
+                    if isinstance(ua, dict) and ua.get("k") == "Un" and ua.get("op") == "*":
+                        continue            # what a pointer member points to, not the member
                     mp = _member_path(a)
-                    if mp:
+                    if mp and "$" not in mp:
                         out.append(("w", mp[1], None, n, f))
             if recv is not None:
                 ur = unwrap_all_casts(recv)
@@ -122,6 +154,24 @@ def _events(facts, cls, f, depth=0, seen=frozenset()):
                             out.extend(_events(facts, cls, g, depth + 1, seen | {f["key"]}))
                 else:
                     mp = _member_path(recv)
+                    if mp and k == "MCall" and cal.get("inrepo") and _accessor(facts, n):
+                        out.append(("r", mp[1], n, f))
+                        return
+                    if mp and k == "MCall" and cal.get("inrepo") and "CDNS::CdnsEncoder &" in (cal.get("sig") or []) and cal.get("ret") == "unsigned long":
+                        # a serialiser: writes to the encoder it is given, reads its object (the repository's convention,
+                        # which R02/R09 check on the serialisers themselves)
+                        out.append(("r", mp[1], n, f))
+                        return
+                    if mp and k == "MCall" and cal.get("inrepo") and not cal.get("virtual"):
+                        # an in-repo member function writes what its body (transitively) writes of its own object
+                        from . import normalize as _nz
+                        try:
+                            wr = _nz.node_writes(n, facts, _MEMO)
+                        except RecursionError:
+                            wr = [(mp, "method")]
+                        if not any(w_ and tuple(w_[:2]) == tuple(mp[:2]) for w_, _h in wr) and not any(w_ is None for w_, _h in wr):
+                            out.append(("r", mp[1], n, f))
+                            return
                     if mp and k == "MCall" and callee_name(n) == "swap" and len(args) == 1 and len(mp) == 2:
                         ub = unwrap_all_casts(args[0])
                         if isinstance(ub, dict) and ub.get("k") == "Ref" and ub.get("d") == "local":
@@ -153,10 +203,11 @@ def _events(facts, cls, f, depth=0, seen=frozenset()):
     return out
 
 
-def _canon(V, f, stores_before):
+def _canon(V, f, stores_before, facts=None, consts=False, prefer=None):
     """V over the state the function leaves behind: a sub-expression that was stored into member s (and s not written since)
     is `this.s`; -> (text, set of members read) or None when something else than members / literals remains"""
     txt_map = {}
+    const_map = {}
     stale_locals = {}
     env = ir.Env(f["body"]) if f.get("body") is not None else None
     for s_, X in stores_before.items():
@@ -177,8 +228,11 @@ def _canon(V, f, stores_before):
             root = unwrap_all_casts(root.get("base"))
         if isinstance(root, dict) and root.get("k") == "Ref" and root.get("d") in ("param", "local") and ir.const_value(ux) is None:
             txt_map[show(ux)] = s_
+        elif consts and ir.const_value(ux) is not None and not isinstance(ir.const_value(ux), str):
+            const_map.setdefault(int(ir.const_value(ux)), set()).add(s_)
 
     members = set()
+    direct = set()
     ok = [True]
     stale = []
 
@@ -198,22 +252,44 @@ def _canon(V, f, stores_before):
             mp = _member_path(n)
             if mp:
                 members.add(mp[1])
+                direct.add(mp[1])
                 return {kk: (rec(vv) if isinstance(vv, (dict, list)) else vv) for kk, vv in n.items() if kk not in ("l",)}
         if n.get("k") == "Ref" and n.get("d") in ("param", "local"):
             if show(n) in stale_locals:
                 stale.append(stale_locals[show(n)])
             ok[0] = False
         if n.get("k") in ("MCall", "Call") and not ((n.get("callee") or {}).get("const") or not (n.get("callee") or {}).get("inrepo")):
-            ok[0] = False
+            from . import normalize as _nz
+            if facts is None or not (_nz.is_pure(n, facts) or _accessor(facts, n)):
+                ok[0] = False
+        # a constant argument that is also the initial value of exactly one member (constructors only)
+        if consts and n.get("k") in ("MCall", "Call", "OpCall", "Index"):
+            m2 = dict(n)
+            for key in ("args",):
+                if isinstance(n.get(key), list):
+                    na = []
+                    for a in n[key]:
+                        cv = ir.const_value(a) if isinstance(a, dict) else None
+                        cands_ = set(const_map.get(int(cv), ())) if (cv is not None and not isinstance(cv, str)) else set()
+                        if prefer is not None and len(cands_) > 1:
+                            cands_ &= set(prefer)
+                        if len(cands_) == 1:
+                            mem = next(iter(cands_))
+                            members.add(mem)
+                            na.append({"k": "Member", "field": True, "n": mem, "base": {"k": "This"}, "t": (a or {}).get("t")})
+                        else:
+                            na.append(rec(a))
+                    m2[key] = na
+            return {kk: (vv if kk == "args" else (rec(vv) if isinstance(vv, (dict, list)) else vv)) for kk, vv in m2.items() if kk not in ("l", "cv")}
         return {kk: (rec(vv) if isinstance(vv, (dict, list)) else vv) for kk, vv in n.items() if kk not in ("l", "cv")}
     if isinstance(V, dict) and V.get("k") == "SwapIn":
         return None
     c = rec(V)
     if stale:
-        return ("<stale>", set(stale), None)
+        return ("<stale>", set(stale), None, set())
     if not ok[0]:
         return None
-    return show(c), members, c
+    return show(c), members, c, direct
 
 
 def analyse(facts, cls, methods=None, record=None):
@@ -252,13 +328,20 @@ def analyse(facts, cls, methods=None, record=None):
         if not ws or any(e[2] is None for _, e in ws):
             continue
         forms = []
+        sites = []
         copies = []
+        retry = []
         for f, e in ws:
-            # the stores into other members that precede this one in f (own writes of f only, no later write to that member)
+            # what the other members hold when the function returns: the value of their last write if that is a plain store
+            # (a store after this one counts as well: `m_d = f(x); m_s = x;` leaves m_d == f(m_s) behind)
             before = {}
-            for e2 in ev[f["key"]]:
-                if e2 is e:
-                    break
+            host = None
+            for fk, evs_ in ev.items():
+                if any(e2 is e for e2 in evs_):
+                    host = evs_
+                    if fk == f["key"]:
+                        break
+            for e2 in (host or []):
                 if e2[0] == "w" and e2[1] != D:
                     before[e2[1]] = e2[2]
             V = e[2]
@@ -268,12 +351,28 @@ def analyse(facts, cls, methods=None, record=None):
             if isinstance(uv, dict) and uv.get("k") == "Member" and uv.get("n") == D and _member_path(uv) is None and path(uv):
                 copies.append((f, e, path(uv)[:-1]))
                 continue
-            c = _canon(V, f, before)
-            if c is None:
-                forms.append(None)
-            else:
-                forms.append(c)
-        stale_sites = [(fw, c) for (fw, _e), c in zip([w for w in ws if not any(w[1] is cp_[1] for cp_ in copies)], forms) if c is not None and c[0] == "<stale>"]
+            c = _canon(V, f, before, facts)
+            forms.append(c)
+            sites.append((f, e))
+            retry.append((len(forms) - 1, V, f, before) if f.get("ctor") else None)
+        # a constructor may spell a member's initial value as the same literal the member itself is initialised with
+        texts0 = [c[0] for c in forms if c is not None and c[0] != "<stale>"]
+        if texts0:
+            from collections import Counter
+            major = Counter(texts0).most_common(1)[0][0]
+            for r_ in retry:
+                if r_ is None:
+                    continue
+                i_, V_, f_, before_ = r_
+                if forms[i_] is None or forms[i_][0] != major:
+                    pref = set()
+                    for c_ in forms:
+                        if c_ is not None and c_[0] == major:
+                            pref |= c_[1]
+                    c2 = _canon(V_, f_, before_, facts, consts=True, prefer=pref)
+                    if c2 is not None and c2[0] == major:
+                        forms[i_] = c2
+        stale_sites = [(fw, c) for (fw, _e), c in zip(sites, forms) if c is not None and c[0] == "<stale>"]
         real = [c for c in forms if c is not None and c[0] != "<stale>"]
         unknown = [c for c in forms if c is None]
         if len(real) < 2 and not (real and stale_sites):
@@ -305,7 +404,8 @@ def analyse(facts, cls, methods=None, record=None):
             undecided[D] = "one of its stores takes a value that is not expressed over the members it is otherwise computed from"
             continue
         derived[D] = {"E": real[0][2], "text": real[0][0], "S": S, "copies": copies, "writes": allw.get(D, ws),
-                      "stale": [(fw, sorted(c[1])) for fw, c in stale_sites]}
+                      "stale": [(fw, sorted(c[1])) for fw, c in stale_sites],
+                      "sites": [(fw, e_, c[3]) for (fw, e_), c in zip(sites, forms) if c is not None and c[0] != "<stale>"]}
     # members of S written from outside the class
     outside = {}
     names_of = set()
@@ -343,7 +443,25 @@ def analyse(facts, cls, methods=None, record=None):
             last_s = max([i for i, e in enumerate(es) if e[0] == "w" and e[1] in d["S"]], default=None)
             if last_s is None:
                 continue
-            later_d = [i for i, e in enumerate(es) if e[0] == "w" and e[1] == D and i > last_s]
+            d_idx = [i for i, e in enumerate(es) if e[0] == "w" and e[1] == D]
+            if d_idx:
+                # the defining store of this function: members it read *directly* must not be written after it; members it
+                # saw through the value that is stored into them later are fine (that store is their last write, by construction)
+                iD = d_idx[-1]
+                site = [x for x in d["sites"] if x[1] is es[iD]]
+                direct = site[0][2] if site else d["S"]
+                late = [i for i, e in enumerate(es) if e[0] == "w" and e[1] in direct and i > iD]
+                if not late:
+                    # nothing reads D between a write to S and the write to D
+                    first_s = min([i for i, e in enumerate(es) if e[0] == "w" and e[1] in d["S"]])
+                    for i in range(first_s + 1, iD):
+                        if es[i][0] == "r" and es[i][1] == D:
+                            violations.append((f, es[i][2].get("l") or f.get("line"), D,
+                                               "%s reads %s after %s changed and before %s is recomputed" % (f["qn"].split("::")[-1], D, es[first_s][1], D)))
+                            break
+                    continue
+                last_s = late[-1]
+            later_d = []
             if not later_d:
                 e = es[last_s]
                 node = e[3]
@@ -385,8 +503,19 @@ def eliminate(facts, cls, info):
                 e["l"] = n.get("l")
                 return e
             return {kk: (rep(vv) if isinstance(vv, (dict, list)) else vv) for kk, vv in n.items()}
+        def simp(n):
+            if isinstance(n, list):
+                return [simp(x) for x in n]
+            if not isinstance(n, dict):
+                return n
+            m = {kk: (simp(vv) if isinstance(vv, (dict, list)) else vv) for kk, vv in n.items()}
+            if m.get("k") == "Un" and m.get("op") == "*":
+                inner = unwrap_all_casts(m.get("e"))
+                if isinstance(inner, dict) and inner.get("k") == "Un" and inner.get("op") == "&" and isinstance(inner.get("e"), dict):
+                    return inner["e"]
+            return m
         for f in methods:
-            f["body"] = rep(f["body"])
+            f["body"] = simp(rep(f["body"]))
             if f.get("inits"):
                 f["inits"] = [i_ for i_ in f["inits"] if i_.get("member") != D]
         rec = facts.records.get(cls)
@@ -411,9 +540,23 @@ def apply(facts):
         if len(rec.get("fields", [])) < 2:
             continue
         info = analyse(facts, cls)
-        if info["derived"] or info["violations"] or info["undecided"]:
+        family = {cls}
+        changed = True
+        while changed:
+            changed = False
+            for q, r in facts.records.items():
+                if q not in family and any(b.get("t") in family for b in r.get("bases", []) or []):
+                    family.add(q)
+                    changed = True
+        methods = [f for f in facts.functions.values() if f.get("cls") in family and f.get("body") is not None and not f.get("flattened")]
+        lazy = analyse_lazy(facts, cls, methods)
+        if lazy is not None:
+            info["lazy"] = lazy
+        if info["derived"] or info["violations"] or info["undecided"] or lazy is not None:
             facts.derived[cls] = info
             n += eliminate(facts, cls, info)
+            if lazy is not None and not lazy["violations"] and not lazy["undecided"]:
+                n += eliminate_lazy(facts, cls, methods, lazy)
     return n
 
 
@@ -450,4 +593,262 @@ def report(run, rule, classes=None):
             n += 1
             run.ob(rule, "%s.%s:kept-in-step" % (cls.split("::")[-1], D), None, rec.get("file"), rec.get("line") or 0,
                    "%s looks derived from other members but %s" % (D, why))
+        lazy = info.get("lazy")
+        if lazy is not None:
+            n += 1
+            key = "%s.%s:resolved-before-use" % (cls.split("::")[-1], "+".join(sorted(lazy.get("roots", []) or [lazy["flag"]])))
+            if lazy["violations"]:
+                f, line, what, text = lazy["violations"][0]
+                run.ob(rule, key, False, f, line, text)
+            elif lazy["undecided"]:
+                run.ob(rule, key, None, rec.get("file"), rec.get("line") or 0, "members resolved on demand under %s: %s" % (lazy["flag"], lazy["undecided"]))
+            else:
+                run.ob(rule, key, True, rec.get("file"), rec.get("line") or 0,
+                       "every read follows a refresh, every change of %s lowers %s" % (", ".join(sorted(lazy["S"])), lazy["flag"]))
     return n
+
+
+# ------------------------------------------------------------------------------------------------ the lazy form
+
+def _this_path(e):
+    """('m_hints', 'qr') for this->m_hints.qr (plain member chain on this, no dereference / index)"""
+    u = unwrap_all_casts(e) if isinstance(e, dict) else None
+    out = []
+    while isinstance(u, dict) and u.get("k") == "Member" and u.get("field"):
+        out.append(u.get("n"))
+        u = unwrap_all_casts(u.get("base"))
+    if isinstance(u, dict) and u.get("k") == "This" and out:
+        return tuple(reversed(out))
+    return None
+
+
+def analyse_lazy(facts, cls, methods):
+    """Members resolved on demand under a validity flag:
+
+        const T& resolved() { if (!m_valid) { m_c.a = E1(members); m_c.b = E2(members); m_valid = true; } return m_c; }
+        void invalidate() { m_valid = false; }            // called wherever a member read by E1, E2 changes
+
+    -> {"flag": V, "defs": {path: (text, expr)}, "S": members read, "refreshers": {fn key: root member}, "violations": [...],
+        "blocks": [If nodes], "undecided": reason or None} or None when the class has no such block."""
+    rec = facts.records.get(cls) or {}
+    bools = {f_["n"] for f_ in rec.get("fields", []) if (f_.get("t") or "") == "bool"}
+    blocks = []
+    for f in methods:
+        for n in walk(f["body"]):
+            if n.get("k") != "If" or n.get("else") is not None:
+                continue
+            c = unwrap_all_casts(n.get("cond"))
+            if not (isinstance(c, dict) and c.get("k") == "Un" and c.get("op") == "!"):
+                continue
+            vp = _this_path(c.get("e"))
+            if not vp or len(vp) != 1 or vp[0] not in bools:
+                continue
+            sts = [x for x in ir.stmts(n.get("then")) if isinstance(x, dict) and x.get("k") != "Null"]
+            stores, sets_flag, ok = {}, False, bool(sts)
+            for st in sts:
+                u = unwrap(st)
+                if isinstance(u, dict) and u.get("k") in ("Bin", "OpCall") and u.get("op") == "=":
+                    lhs = u.get("lhs") if u.get("k") == "Bin" else (u.get("args") or [None])[0]
+                    rhs = u.get("rhs") if u.get("k") == "Bin" else ((u.get("args") or [None, None])[1] if len(u.get("args", [])) > 1 else None)
+                    lp = _this_path(lhs)
+                    if lp == vp and ir.const_value(rhs) == 1:
+                        sets_flag = True
+                        continue
+                    if lp and lp[0] != vp[0] and rhs is not None:
+                        stores[lp] = rhs
+                        continue
+                ok = False
+            if ok and sets_flag and stores:
+                blocks.append((f, n, vp[0], stores))
+    if not blocks:
+        return None
+    V = blocks[0][2]
+    res = {"flag": V, "defs": {}, "S": set(), "refreshers": {}, "violations": [], "blocks": [b[1] for b in blocks], "undecided": None}
+    if any(b[2] != V for b in blocks):
+        res["undecided"] = "several validity flags"
+        return res
+    for f, n, _, stores in blocks:
+        for lp, rhs in stores.items():
+            c = _canon(rhs, f, {}, facts)
+            if c is None:
+                res["undecided"] = "%s is resolved from something that is not a member" % ".".join(lp)
+                return res
+            if lp in res["defs"] and res["defs"][lp][0] != c[0]:
+                res["undecided"] = "%s is resolved in two different ways" % ".".join(lp)
+                return res
+            res["defs"][lp] = (c[0], c[2])
+            res["S"] |= c[1]
+    roots = set(lp[0] for lp in res["defs"])
+    res["roots"] = roots
+    if res["S"] & (roots | {V}):
+        res["undecided"] = "a resolved member is computed from another resolved member"
+        return res
+    fi = [f_ for f_ in rec.get("fields", []) if f_["n"] == V]
+    if not fi or fi[0].get("init") is None or ir.const_value(fi[0]["init"]) != 0:
+        # (a constructor initialiser `m_valid(false)` in every constructor would do as well)
+        ctors = [f for f in methods if f.get("ctor") and f.get("cls") == cls]
+        if not ctors or not all(any(i_.get("member") == V and i_.get("init") is not None and ir.const_value(i_["init"]) == 0 for i_ in (c_.get("inits") or [])) for c_ in ctors):
+            res["undecided"] = "flag %s does not start out false" % V
+            return res
+    block_nodes = set(id(x) for b in res["blocks"] for x in walk(b))
+    # functions that are a refresh followed by `return <root>`
+    for f, n, _, _s in blocks:
+        sts = [x for x in ir.stmts(f["body"]) if isinstance(x, dict) and x.get("k") != "Null"]
+        if len(sts) == 2 and sts[0] is n and sts[1].get("k") == "Return" and sts[1].get("e") is not None:
+            rp = _this_path(sts[1]["e"])
+            if rp and len(rp) == 1 and rp[0] in roots:
+                res["refreshers"][(f["qn"], tuple(f.get("sig") or ()))] = rp[0]
+
+    def is_refresher_call(x):
+        return x.get("k") == "MCall" and isinstance(x.get("callee"), dict) and (x["callee"].get("qn"), tuple(x["callee"].get("sig") or ())) in res["refreshers"] and \
+            isinstance(unwrap_all_casts(x.get("recv")), dict) and unwrap_all_casts(x["recv"]).get("k") == "This"
+    for f in methods:
+        if (f["qn"], tuple(f.get("sig") or ())) in res["refreshers"]:
+            continue
+        evs = []
+        for x in walk(f["body"]):
+            if id(x) in block_nodes:
+                if any(x is b for b in res["blocks"]):
+                    evs.append(("refresh", x))
+                continue
+            if is_refresher_call(x):
+                evs.append(("refresh", x))
+                continue
+            if x.get("k") in ("Bin", "OpCall") and (x.get("op") or "").endswith("=") and x.get("op") not in ("==", "!=", "<=", ">="):
+                lhs = x.get("lhs") if x.get("k") == "Bin" else (x.get("args") or [None])[0]
+                lp = _this_path(lhs) if lhs is not None else None
+                rhs = x.get("rhs") if x.get("k") == "Bin" else ((x.get("args") or [None, None])[1] if len(x.get("args", [])) > 1 else None)
+                if lp and lp[0] == V:
+                    evs.append(("invalidate", x) if ir.const_value(rhs) == 0 and x.get("op") == "=" else ("badflag", x))
+                elif lp and lp[0] in roots:
+                    # a copy of the whole thing from another object of the class next to the flag and the sources is fine
+                    ur = unwrap_all_casts(rhs) if rhs is not None else None
+                    if not (isinstance(ur, dict) and ur.get("k") == "Member" and path(ur) and path(ur)[0] != "this" and path(ur)[-1] == lp[-1]):
+                        evs.append(("badstore", x))
+                elif lp and lp[0] in res["S"]:
+                    evs.append(("swrite", x, lp[0]))
+            if x.get("k") == "MCall" and not is_refresher_call(x):
+                rp = _this_path(x.get("recv")) if x.get("recv") is not None else None
+                cal = x.get("callee") or {}
+                if rp and rp[0] in res["S"] and not cal.get("const") and not (cal.get("inrepo") and _accessor(facts, x)) and \
+                        not ("CDNS::CdnsEncoder &" in (cal.get("sig") or []) and cal.get("ret") == "unsigned long") and \
+                        (callee_name(x) or "") not in ("size", "empty", "begin", "end", "find", "at", "c_str", "data", "front", "back"):
+                    evs.append(("swrite", x, rp[0]))
+            if x.get("k") == "Call" and callee_name(x) == "swap":
+                for a in x.get("args", []):
+                    ap = _this_path(a)
+                    if ap and ap[0] in res["S"]:
+                        evs.append(("swrite", x, ap[0]))
+            if x.get("k") == "Member":
+                lp = _this_path(x)
+                if lp and lp[0] in roots:
+                    evs.append(("read", x, lp))
+        # de-duplicate nested member reads (m_hints.qr contains m_hints): keep the longest path per position
+        last_refresh = None
+        pending_s = None
+        seen_read_nodes = set()
+        for i, e in enumerate(evs):
+            if e[0] in ("badflag", "badstore"):
+                res["undecided"] = "%s writes %s outside a refresh" % (f["qn"].split("::")[-1], "the flag" if e[0] == "badflag" else "a resolved member")
+                return res
+            if e[0] == "refresh":
+                last_refresh = i
+            elif e[0] == "swrite":
+                pending_s = e
+                last_refresh = None
+            elif e[0] == "invalidate":
+                pending_s = None
+            elif e[0] == "read":
+                node = e[1]
+                if any(id(y) in seen_read_nodes for y in walk(node)) and False:
+                    continue
+                for y in walk(node):
+                    seen_read_nodes.add(id(y))
+                if last_refresh is None and not f.get("ctor") and not f.get("dtor"):
+                    res["violations"].append((f, node.get("l") or f.get("line"), ".".join(e[2]),
+                                              "%s reads %s without resolving it first: it holds what was resolved for earlier values of %s (or nothing yet)" % (
+                                                  f["qn"].split("::")[-1], ".".join(e[2]), ", ".join(sorted(res["S"])))))
+                    break
+        if pending_s is not None and not f.get("dtor"):
+            res["violations"].append((f, pending_s[1].get("l") or f.get("line"), V,
+                                      "%s changes %s and returns with %s still set: the values resolved from the old %s stay in use" % (
+                                          f["qn"].split("::")[-1], pending_s[2], V, pending_s[2])))
+    return res
+
+
+def eliminate_lazy(facts, cls, methods, res):
+    """reads of lazily resolved members become their defining expressions; refresh blocks, flag and members go"""
+    V, defs, roots = res["flag"], res["defs"], res["roots"]
+    block_ids = set(id(b) for b in res["blocks"])
+    alias = {}          # local id -> root member (reference bound to a refresher call)
+
+    def refresher_root(x):
+        u = unwrap_all_casts(x) if isinstance(x, dict) else None
+        if isinstance(u, dict) and u.get("k") == "MCall" and isinstance(u.get("callee"), dict):
+            return res["refreshers"].get((u["callee"].get("qn"), tuple(u["callee"].get("sig") or ())))
+        return None
+
+    def rep(n):
+        if isinstance(n, list):
+            out = []
+            for x in n:
+                if isinstance(x, dict):
+                    if id(x) in block_ids:
+                        continue
+                    u = unwrap(x)
+                    if isinstance(u, dict) and u.get("k") in ("Bin", "OpCall") and u.get("op") == "=":
+                        lhs = u.get("lhs") if u.get("k") == "Bin" else (u.get("args") or [None])[0]
+                        lp = _this_path(lhs) if lhs is not None else None
+                        if lp and (lp[0] == V or lp[0] in roots):
+                            continue
+                    if x.get("k") == "Decl" and len(x.get("vars", [])) == 1 and x["vars"][0].get("init") is not None and refresher_root(x["vars"][0]["init"]):
+                        alias[x["vars"][0].get("id")] = refresher_root(x["vars"][0]["init"])
+                        continue
+                    if isinstance(u, dict) and refresher_root(u):
+                        continue            # a refresher called for its effect only
+                out.append(rep(x))
+            return out
+        if not isinstance(n, dict):
+            return n
+        if n.get("k") == "Member" and n.get("field"):
+            lp = _this_path(n)
+            if lp and lp in defs:
+                e = copy.deepcopy(defs[lp][1])
+                e["l"] = n.get("l")
+                return e
+            # <refresher call>.f  /  <alias>.f
+            chain = []
+            u = n
+            while isinstance(u, dict) and u.get("k") == "Member" and u.get("field"):
+                chain.append(u.get("n"))
+                u = unwrap_all_casts(u.get("base"))
+            root = None
+            if isinstance(u, dict) and refresher_root(u):
+                root = refresher_root(u)
+            elif isinstance(u, dict) and u.get("k") == "Ref" and u.get("d") == "local" and u.get("id") in alias:
+                root = alias[u["id"]]
+            if root is not None:
+                lp = (root,) + tuple(reversed(chain))
+                if lp in defs:
+                    e = copy.deepcopy(defs[lp][1])
+                    e["l"] = n.get("l")
+                    return e
+        return {kk: (rep(vv) if isinstance(vv, (dict, list)) else vv) for kk, vv in n.items()}
+    for f in methods:
+        if (f["qn"], tuple(f.get("sig") or ())) in res["refreshers"]:
+            continue
+        f["body"] = rep(f["body"])
+        if f.get("inits"):
+            f["inits"] = [i_ for i_ in f["inits"] if i_.get("member") not in roots and i_.get("member") != V]
+    for key, f in list(facts.functions.items()):
+        if (f["qn"], tuple(f.get("sig") or ())) in res["refreshers"]:
+            facts.absorbed[key] = facts.functions.pop(key)
+            lst = facts.by_qn.get(f["qn"], [])
+            if f in lst:
+                lst.remove(f)
+    rec = facts.records.get(cls)
+    if rec is not None:
+        gone = roots | {V}
+        rec["derived_fields"] = rec.get("derived_fields", []) + [f_ for f_ in rec.get("fields", []) if f_["n"] in gone]
+        rec["fields"] = [f_ for f_ in rec.get("fields", []) if f_["n"] not in gone]
+    return 1
